@@ -110,6 +110,10 @@ def dispatch(E, f, args, node):
     if qual in E.contracts and not E.spec_mode:
         if E.contracts[qual].get('inline'):
             return call_inline(E, qual, args, node)
+        if qual in (getattr(E, 'case', None) or {}).get('inline_callees', ()) or qual in (getattr(E, 'contract', None) or {}).get('inline_callees', ()):
+            # the caller's proof needs more than the callee's contract says: the callee's real body is executed in place
+            # (the callee is still verified against its own contract as a unit of its own)
+            return call_inline(E, qual, args, node)
         return call_contract(E, qual, args, node)
     h = LIB.get(qual)
     if h is not None:
@@ -239,6 +243,8 @@ def type_matches(T, v):
             return isinstance(v, (int, float, X)) and not isinstance(v, bool) or (isinstance(v, Z) and v.ty in (INT, REAL))
         return False
     tag = T[0]
+    if tag == 'derived':
+        return type_matches(T[2], v)
     if tag == 'const':
         return type(v) is type(T[1]) and v == T[1]
     if tag == 'grid':
@@ -270,9 +276,14 @@ def select_case(E, c, bound, node, short):
         types.update(case.get('params', {}))
         if all(type_matches(T, bound.get(p)) for p, T in types.items() if p in bound):
             cands.append(case)
-    env = dict(bound)
     undecided = []
     for case in cands:
+        env = dict(bound)
+        if case.get('call_ghosts'):
+            try:
+                env.update(case['call_ghosts'](E, bound))
+            except Unsupported:
+                continue                    # the arguments do not have the form this case is about
         reqs = list(case.get('requires', []))
         for key, rq in (c.get('case_requires') or {}).items():
             if key in (case.get('label') or ''):
@@ -366,6 +377,11 @@ def call_contract(E, qual, args, node, self_first=False):
     c['raises'] = r_
     env = dict(bound)
     env['__call__'] = True
+    if case.get('call_ghosts'):
+        # ghost names of the callee's typed case (e.g. the two integers of a window on the sample grid), recovered from the
+        # actual arguments; Unsupported when the arguments do not have that form
+        env.update(case['call_ghosts'](E, bound))
+        bound = dict(bound, **{k: v for k, v in env.items() if k not in bound and k != '__call__'})
     for r in c.get('requires', []):
         E.oblige('requires@call', E.spec_bool(r, env), node, note=short)
     for cls, cond in c.get('raises', {}).items():
@@ -551,6 +567,8 @@ def b_round(E, args, node):
         return round(v)
     if isinstance(v, Z) and v.ty == INT:
         return v
+    if isinstance(v, Z) and v.ty == REAL and z3.is_to_real(z3.simplify(v.t)):
+        return Z(z3.simplify(v.t).arg(0), INT)
     if isinstance(v, Z) and v.ty == REAL:
         # round-half-even; ties only matter at exact .5 which sample-grid products never hit (stated assumption)
         f = z3.ToInt(v.t + z3.RealVal('1/2'))
